@@ -62,6 +62,7 @@ type PathResult struct {
 	Inputs   map[string]uint64
 	Notes    []string
 	Events   []string
+	NotComparable string // non-empty: the path cannot be compared with a native run (library stub, verifNative branch, free-outcome stub)
 }
 
 type Exec struct {
@@ -108,6 +109,7 @@ type Exec struct {
 	pendingFor   *Term
 	pcSet     map[int]bool
 	pcDirty   bool
+	inOnLock  bool
 	lastModel map[string]uint64 // a model of the current path condition, if known
 	evalMemo  map[int]uint64
 }
@@ -1816,6 +1818,11 @@ func (ex *Exec) invoke(fv *FuncV, args []Value, fr *Frame) Value {
 	fn := fv.Fn
 	name := fn.String()
 	if h, ok := ex.hooks[name]; ok && !ex.inHook[name] {
+		if !strings.Contains(name, pikeMod+"/") && ex.res != nil && ex.res.NotComparable == "" {
+			// the native shim redirects only pike's own functions: a path through a stubbed library
+			// function is not comparable with a native run
+			ex.res.NotComparable = "library stub " + name
+		}
 		ex.inHook[name] = true
 		defer func() { ex.inHook[name] = false }()
 		if ex.inThread() {
